@@ -634,6 +634,7 @@ def run_history_impl(V, spec, ops, start='ctor'):
                         if form == 'self': fr.copy_from(fr)
                         elif form == 'same':
                             fr.copy_from(frames[sk])
+                            cleared.discard(sk)     # the source has been loaded: a cleared source is blank now
                             if sk != k: touched.add(k)
                         elif form in ('other_lazy', 'other_loaded'):
                             if sk in oframes[form] and sk in other_px:
